@@ -371,7 +371,7 @@ def run_trace_check(pid: str, tier: str, seed: int) -> int:
         # the code-shaped registry model: every history of composite creation / merge (in argument order) / combine /
         # reorder / measure up to the bound; the second configuration has four handles and no custom state (merge chains)
         runs = {"quick": [((2, 1, 2, 3), True), ((2, 0, 4, 4), False)],
-                "thorough": [((2, 1, 2, 4), True), ((2, 1, 3, 3), True), ((2, 0, 4, 4), True)]}[tier]
+                "thorough": [((2, 1, 2, 4), True), ((2, 1, 3, 3), True), ((2, 0, 4, 4), False)]}[tier]
         for (ne, nc, mh, ms), steps in runs:
             lcfg = os.path.join(OUT, f"{pid}_{tier}_layout_{ne}{nc}{mh}{ms}.cfg")
             with open(lcfg, "w") as fh:
